@@ -47,8 +47,9 @@ type universe struct {
 }
 
 // trc returns the TRC of the given kind for serial k.
-//   a, b    the two genuine chains (b differs in the description only)
-//   af, bf  the same with a validity starting two days from now
+//
+//	a, b    the two genuine chains (b differs in the description only)
+//	af, bf  the same with a validity starting two days from now
 func (u *universe) trc(kind string, k int) cppki.SignedTRC {
 	key := fmt.Sprintf("%s/%d", kind, k)
 	if t, ok := u.cache[key]; ok {
